@@ -26,7 +26,10 @@ FRAGS = ['>>> ', '... ', '>>>', '...', 'x = 1', 'print(x)', 'f(', ')', '[', ']',
          '# XDOCTEST: +REQUIRES(', '# XDoc: +REQUIRES(a,(b)', '# DocTest: +SKIP)', '# XDOC: +SKIP', '# DISABLE_DOCTEST', '# SCRIPT', 'def f():', 'class A:',
          'return', 'if x:', 'else:', 'lambda', 'yield', 'import os', '    ', '\t', '\n', '\n', '\n', '\x0c', '\x0b', '\r', '\x00',
          'Example:', 'Args:', 'Returns:', 'é', '　', '1', 'x', ';', ':', ',', '@', '=', '==', '(' * 30, '[(' * 20, 'text', 'Traceback (most recent call last):',
-         '<BLANKLINE>', '  # comment', '$', '?', '`', '!x', 'async def g():', 'await z', 'with a as b:', 'try:', 'except:', 'global x', 'nonlocal y']
+         '<BLANKLINE>', '  # comment', '$', '?', '`', '!x', 'async def g():', 'await z', 'with a as b:', 'try:', 'except:', 'global x', 'nonlocal y',
+         # long runs of one kind of character (numbers with dozens of digits, long names, long operator runs): time, not only answers
+         '340282366920938463463374607431768211456', '3.14159265358979323846264338327950288419716939937510', '1_000' * 12, '0x' + 'f' * 48,
+         'a' * 90, '.' * 40, '-' * 60, '1e' + '9' * 30, '0' * 45]
 GOOD_BEFORE = ['>>> a = 1', '>>> print(a)', '1']
 SKIPHDR = ['Ignore:', 'Script:', 'DisableDoctest:', 'Benchmark:', 'Example:', 'Doctest:', 'Notes:', 'Example :', 'Args :', 'Returns  ::', 'Examples::', 'Doctest : ']
 
@@ -98,6 +101,7 @@ def impl_examples(docstr, style):
                 devnull.close()
         return ('ok', [(e.num, e.lineno) for e in exs], len([w for w in wl if 'Cannot scrape' in str(w.message)]))
     except Timeout:
+        _TIMEOUTS[0] += 1
         return ('timeout',)
     except Exception as e:
         return ('raised', type(e).__name__)
@@ -163,11 +167,19 @@ def _oracle_inputs(docstr):
     return split, parsed
 
 
+_TIMEOUTS = [0]      # per worker process: after a few calls that did not return, the remaining strings are not evaluated (the
+                     # violation is reported; waiting 5 s for each of thousands of strings would only delay it)
+
+
 def _worker(strings):
     out = []
     res, _tabs = parsemodel.model_parse_many(strings)
     reqs = []
     for s, r in zip(strings, res):
+        if _TIMEOUTS[0] >= 3:
+            out.append([[Sym('not-evaluated')], parsemodel.canon_model(r), True, {st: ('ok', [], 0) for st in ('google', 'freeform', 'auto')}, True])
+            reqs += [('ping',)] * 3
+            continue
         old = signal.signal(signal.SIGALRM, _alarm)
         signal.alarm(5)
         try:
@@ -175,6 +187,7 @@ def _worker(strings):
                 i = parsemodel.impl_parse(s)
             except Timeout:
                 i = [Sym('timeout')]
+                _TIMEOUTS[0] += 1
         finally:
             signal.alarm(0)
             signal.signal(signal.SIGALRM, old)
